@@ -25,8 +25,8 @@ type Case struct {
 	// Interfere (second case shape): K one-way messages with live contexts are sent to a node
 	// whose handler is blocked; then other calls whose context has ended are made on the same
 	// node; all K messages must still be delivered exactly once.
-	Interfere *Interfere `json:"interfere,omitempty"`
-	RecvBuffer  uint `json:"recv_buffer,omitempty"`
+	Interfere  *Interfere `json:"interfere,omitempty"`
+	RecvBuffer uint       `json:"recv_buffer,omitempty"`
 }
 
 var kinds = []string{"QC", "QCPerNode", "QCCombo", "Async", "AsyncPerNode", "AsyncCombo", "Corr", "CorrPerNode", "CorrCombo",
@@ -34,15 +34,15 @@ var kinds = []string{"QC", "QCPerNode", "QCCombo", "Async", "AsyncPerNode", "Asy
 
 // Interfere describes the second case shape.
 type Interfere struct {
-	K          int    `json:"k"`
-	Multicast  bool   `json:"multicast,omitempty"` // the K messages are multicasts on a configuration instead of unicasts
-	NoSendWait bool   `json:"no_send_wait,omitempty"`
-	Others     int    `json:"others"`
+	K          int  `json:"k"`
+	Multicast  bool `json:"multicast,omitempty"` // the K messages are multicasts on a configuration instead of unicasts
+	NoSendWait bool `json:"no_send_wait,omitempty"`
+	Others     int  `json:"others"`
 	// Mode: precancelled (the other calls' contexts end before the call is made) |
 	// during-send (large requests cancelled microseconds after they were issued)
-	Mode     string `json:"mode"`
+	Mode      string `json:"mode"`
 	OtherKind string `json:"other_kind"`
-	CancelUs int    `json:"cancel_us,omitempty"`
+	CancelUs  int    `json:"cancel_us,omitempty"`
 }
 
 func genInterfere(t *rapid.T) Case {
